@@ -929,7 +929,7 @@ def gen_dinucleotide(tier, seed):
             for salt in range(3 if thorough else 2):
                 for pv in ([2.5, 4.0, 1.7], [0.4, 9.0, 0.2], [1.0, 1.0, 1.0])[:3 if thorough else 2]:
                     i += 1
-                    pi = PI_NUC[1 + salt % 2] if MODELS[model][2] == "nuc" else _pseudo_probs(states, salt + 1)
+                    pi = PI_NUC[(salt + 1) % 3] if MODELS[model][2] == "nuc" else _pseudo_probs(states, salt + 1)
                     if ntips == 2:
                         aln = {"words": states + DINUC_WORDS[5:]} if thorough else \
                             {"words": states + DINUC_WORDS[5:], "stride": 3}
